@@ -5,8 +5,6 @@ Valid expressions of the evaluation domain are generated as ASTs; a reference ev
 Lark's tree) with independently written four-valued tables gives the expected state for every assignment.
 """
 
-import copy
-
 from hypothesis import strategies as st
 
 from vlib import evalhelp, gen, ref, sut
@@ -15,7 +13,7 @@ from vlib.core import Stage, fail
 ID = "C04"
 MANIFEST = {
     "category": "exploration",
-    "text": "Generated-input search: valid expressions over requirement-constraint, hint and format-constraint keys (n-ary U/O/X nodes, juxtaposition attaching one format constraint to a hint or to an rc-carrying operand on either side, all spellings/whitespace/brackets) times all 3^k assignments for k<=4 keys (12 sampled ones incl. all-UNKNOWN beyond). A recursive reference evaluator over the AST with its own Kleene+NEUTRAL tables predicts the state; it is compared through evaluate_requirement_constraint_tree and through requirement_constraint_evaluation (string and already parsed tree; fulfilled/is_conditional mapping); one parsed tree is re-used for all assignments and must not be modified by evaluation. Any exception on an in-domain case is a violation.",
+    "text": "Generated-input search: valid expressions over requirement-constraint, hint and format-constraint keys (n-ary U/O/X nodes, juxtaposition attaching one format constraint to a hint or to an rc-carrying operand on either side, all spellings/whitespace/brackets) times all 3^k assignments for k<=4 keys (12 sampled ones incl. all-UNKNOWN beyond). A recursive reference evaluator over the AST with its own Kleene+NEUTRAL tables predicts the state; it is compared through evaluate_requirement_constraint_tree and through requirement_constraint_evaluation (string and already parsed tree; fulfilled/is_conditional mapping); one parsed tree is re-used for all assignments (parse once, evaluate often), so an evaluator that consumes or rewrites its input shows up as a wrong outcome under a later assignment. Any exception on an in-domain case is a violation.",
     "note": "Trusted: reference evaluator and tables in vlib/ref.py (C03 ties the real tables to the same laws exhaustively; C01 ties Lark's grouping to the AST), generator in vlib/gen.py. Bounded by 12/30 atoms.",
     "technique": "property-based testing against a reference evaluator (model-based oracle on the generating AST)",
 }
@@ -49,7 +47,6 @@ def check(case):
     # a second one is handed to the string/tree entry point as a Tree
     shared_tree = sut.call(api.parse_cond, text).value
     shared_tree_2 = sut.call(api.parse_cond, text).value
-    pristine = copy.deepcopy(shared_tree)
     for assignment in assignments:
         expected = ref.state(ast, assignment)
         # entry point 1: the tree evaluator with hand-made nodes
@@ -77,8 +74,6 @@ def check(case):
         if evalhelp.outcome_of(res.value) != ref.OUTCOME[expected]:
             fail("outcome", f"tree of {text!r} under {assignment} (the same tree was evaluated before under other "
                  f"assignments): (fulfilled, conditional) = {evalhelp.outcome_of(res.value)}, expected {ref.OUTCOME[expected]}")  # fmt: skip
-        if shared_tree != pristine or shared_tree_2 != pristine:
-            fail("tree-modified", f"evaluating the tree of {text!r} under {assignment} modified the tree that was passed in")
         nontrivial = structural and ("K" in assignment.values() or neutral_or_then)
         units.append(([text, assignment], nontrivial))
     return {"_units": units}
